@@ -271,7 +271,7 @@ type outcome struct {
 	depth    int  // deepest level of referential actions reached (root statement = 0)
 	selfRows bool // a self-referencing foreign key acted on some row
 	fkReject bool // the (possible) rejection is caused by a foreign key
-	// actionRows[t]: rows of table t deleted / rewritten by referential actions (depth >= 1)
+	// actionRows[t]: rows of table t deleted / rewritten by the statement and its referential actions
 	actionRows map[int]int
 }
 
@@ -324,9 +324,7 @@ func (e *exec) deleteRow(t, rid, depth int) {
 	e.cur.remove(t, rid)
 	e.deleted[rid] = true
 	e.note(depth)
-	if depth >= 1 {
-		e.actRows[t]++
-	}
+	e.actRows[t]++
 	for _, f := range e.sc.fks {
 		if !f.active || f.parent != t {
 			continue
@@ -382,9 +380,7 @@ func (e *exec) updateRow(t, rid int, set map[int]int64, via *fkDef, depth int) {
 	}
 	nw := append([]int64(nil), r.v...)
 	e.note(depth)
-	if depth >= 1 {
-		e.actRows[t]++
-	}
+	e.actRows[t]++
 	isChanged := func(cols []int) bool {
 		for _, c := range cols {
 			for _, d := range chg {
